@@ -106,14 +106,22 @@ def verify_tests(path, slot):
         r = subprocess.run(["patch", "-p1", "-s", "--no-backup-if-mismatch", "-i", path], cwd=dst, capture_output=True, text=True)
         if r.returncode != 0:
             return {"applies": False}
-        env = dict(os.environ, CARGO_NET_OFFLINE="true", CARGO_TARGET_DIR=os.path.join(VERIF, ".cache", f"target-verify-{slot}"))
+        sys.path.insert(0, os.path.join(VERIF, "tools"))
+        import scratch
+
+        tgt = scratch.fresh_target()
+        env = dict(os.environ, CARGO_NET_OFFLINE="true", CARGO_TARGET_DIR=tgt)
         c = subprocess.run("cargo test --offline 2>&1 | grep -E '^test result|^error' | head -8", shell=True, cwd=dst, env=env, capture_output=True, text=True)
         out = c.stdout
         passed = sum(int(x) for x in re.findall(r"(\d+) passed", out))
         failed = sum(int(x) for x in re.findall(r"(\d+) failed", out))
-        return {"applies": True, "compiles": "error" not in out and passed + failed > 0, "passed": passed, "failed": failed}
+        return {"applies": True, "compiles": "could not compile" not in out, "passed": passed, "failed": failed, "tests_pass": passed == 142 and failed == 0 and "error" not in out}
     finally:
         shutil.rmtree(d, ignore_errors=True)
+        try:
+            shutil.rmtree(tgt, ignore_errors=True)
+        except NameError:
+            pass
 
 
 def main_verify(subs, jobs):
